@@ -34,11 +34,12 @@ type VarInfo struct {
 
 // Env is the generator's view of the variables a program can see.
 type Env struct {
-	Vars []*VarInfo
+	Vars  []*VarInfo
+	Boxes []Box // Extra: containers known to hold a function
 }
 
 func (e *Env) Clone() *Env {
-	c := &Env{}
+	c := &Env{Boxes: append([]Box(nil), e.Boxes...)}
 	for _, v := range e.Vars {
 		w := *v
 		w.Keys = append([]string(nil), v.Keys...)
@@ -103,12 +104,14 @@ type Opts struct {
 	// observe depends on Go map iteration order (toStr/repr/templates/keys() of a dict).
 	SingleKeyDicts bool
 	StrIndexOOB bool // string literal indexed outside its length ('abc'[5], ''[0])
+	IndexThenSlice bool // X[i][a:b]: a slice suffix directly after an index (C02-F04)
+	Extra     bool   // C02: this./&raw reads, load/loadRaw/store, dict methods, functions in containers, nested aliases (extra.go)
 	Avoid     func(string) bool
 }
 
 func DefaultOpts() Opts {
 	return Opts{MaxStmts: 8, MaxDepth: 4, Stmts: true, Computed: true, Templates: true, Bitwise: true, Floats: true,
-		SideFx: true, ThisAssign: true, BreakInIf: true, IdxCompare: true, FullWidth: true, NullVars: true, StrIndexOOB: true}
+		SideFx: true, ThisAssign: true, BreakInIf: true, IdxCompare: true, FullWidth: true, NullVars: true, StrIndexOOB: true, IndexThenSlice: true}
 }
 
 // G is one generation context.
@@ -232,6 +235,11 @@ func (g *G) Expr(want T, d int) *Node {
 	}
 	switch want {
 	case TInt:
+		if g.O.Extra && d > 0 && g.intn(7, "extraInt") == 0 {
+			if n := g.extraInt(d); n != nil {
+				return n
+			}
+		}
 		return g.intExpr(d)
 	case TFlt:
 		return g.fltExpr(d)
@@ -520,6 +528,9 @@ func (g *G) strLit() *Node {
 }
 
 func (g *G) strExpr(d int) *Node {
+	if g.O.Extra && g.O.Templates && d > 0 && g.intn(4, "extraTmpl") == 0 {
+		return g.extraTmpl(d - 1)
+	}
 	if d <= 0 {
 		vars := g.Env.OfType(TStr)
 		if len(vars) > 0 && g.intn(2, "strVar") == 0 {
@@ -560,10 +571,43 @@ func (g *G) strExpr(d int) *Node {
 	case 8:
 		s := g.strExpr(d - 1)
 		a, b := g.sliceBounds(5)
-		return N("slice", s, a, b)
+		return N("slice", g.sliceObj(s, TStr), a, b)
 	default:
 		return N("tern", g.intExpr(d-1), g.strExpr(d-1), g.strExpr(d-1))
 	}
+}
+
+// EndsInIndex reports whether the printed form of n ends with an index suffix `…[i]`
+// that a following `[a:b]` would touch (rightmost operand chain).
+func EndsInIndex(n *Node) bool {
+	for n != nil {
+		switch n.K {
+		case "idx":
+			return true
+		case "bin", "tern", "chain", "neg", "pos":
+			if len(n.Kids) == 0 {
+				return false
+			}
+			n = n.Kids[len(n.Kids)-1]
+		default:
+			return false
+		}
+	}
+	return false
+}
+
+// sliceObj keeps the object of a slice away from the `X[i][a:b]` shape while that is an open finding.
+func (g *G) sliceObj(obj *Node, t T) *Node {
+	if !EndsInIndex(obj) {
+		return obj
+	}
+	if g.O.IndexThenSlice && !g.avoid("index_then_slice") {
+		return obj
+	}
+	if t == TStr {
+		return g.strLit()
+	}
+	return g.arrILit(g.intn(5, "arrILen"))
 }
 
 func (g *G) sliceBounds(length int) (*Node, *Node) {
@@ -669,7 +713,7 @@ func (g *G) arrIExpr(d int) *Node {
 		return Bin("*", Int(int64(g.intn(4, "rep"))), g.arrILit(1+g.intn(3, "repLen")))
 	case 5:
 		a, b := g.sliceBounds(4)
-		return N("slice", g.arrIExpr(d-1), a, b)
+		return N("slice", g.sliceObj(g.arrIExpr(d-1), TArrI), a, b)
 	default:
 		return g.arrILit(g.intn(5, "arrILen"))
 	}
@@ -705,6 +749,11 @@ func (g *G) dictExpr(d int) *Node {
 				kn = Int(0)
 			} else {
 				kn = Str(k, g.intn(2, "q"))
+			}
+		case 1:
+			kn = Str(k, g.intn(2, "q"))
+			if g.O.Extra {
+				kn = g.extraDictKey(kn)
 			}
 		default:
 			kn = Str(k, g.intn(2, "q"))
@@ -895,6 +944,9 @@ func (g *G) Stmt(d int) []*Node {
 	if g.O.ThisAssign && !g.avoid("this_assign") {
 		kinds = append(kinds, "this")
 	}
+	if g.O.Extra {
+		kinds = append(kinds, "extra", "extra", "extra")
+	}
 	switch kinds[g.intn(len(kinds), "stmtKind")] {
 	case "assign":
 		return []*Node{g.assignStmt(d)}
@@ -912,6 +964,8 @@ func (g *G) Stmt(d int) []*Node {
 		return []*Node{N("ret", g.intExpr(d-1))}
 	case "computed":
 		return g.computedStmt(d)
+	case "extra":
+		return g.extraStmt(d)
 	case "this":
 		name := g.FreshName()
 		e := g.intExpr(d - 1)
